@@ -270,12 +270,15 @@ def h_splitter(cfg):
 
 # --- fat tree ---------------------------------------------------------------------------
 
+_PIN = {'src': False}
+
+
 def _sample_stub(population, k):
     pop = list(population)
     if k == 1:
         return [pop[choice('path', len(pop))]]
     if k == 2:
-        i = choice('src', len(pop))
+        i = 0 if _PIN['src'] else choice('src', len(pop))
         j = choice('dst', len(pop) - 1)
         if j >= i:
             j += 1
@@ -337,6 +340,7 @@ def h_fattree(cfg):
     k, nflows, tcp = cfg['k'], cfg['nflows'], cfg['tcp']
     saved = ftm.sample
     ftm.sample = _sample_stub
+    _PIN['src'] = bool(cfg.get('pin_src'))     # larger k: the source is the first host (pod symmetry), every destination and path
     try:
         ft = FatTree(k)
         _check_structure(ft, k)
@@ -474,7 +478,12 @@ def jobs(tier, seed):
                                              'conc_size': 1000}, 'weight': 10})
     js.append({'harness': 'fattree', 'cfg': {'k': 2, 'nflows': 2, 'tcp': False, 'e2e': True, 'server': 'SP', 'nclasses': 2},
                'weight': 10})
+    # larger trees (host pairs in one pod under different edge switches have detours no longer than the diameter)
+    js.append({'harness': 'fattree', 'cfg': {'k': 6, 'nflows': 1, 'tcp': True, 'e2e': False, 'pin_src': True}, 'weight': 300,
+               'opts': {'max_paths': 40000}})
     if tier != 'quick':
+        js.append({'harness': 'fattree', 'cfg': {'k': 8, 'nflows': 1, 'tcp': False, 'e2e': False, 'pin_src': True}, 'weight': 2000,
+                   'opts': {'max_paths': 40000}})
         js.append({'harness': 'fattree', 'cfg': {'k': 6, 'nflows': 1, 'tcp': True, 'e2e': False}, 'weight': 2000,
                    'opts': {'max_paths': 40000}})
         js.append({'harness': 'fattree', 'cfg': {'k': 4, 'nflows': 2, 'tcp': True, 'e2e': True, 'server': 'WFQ', 'nclasses': 1, 'conc_size': 100},
@@ -492,8 +501,8 @@ META = {
                         'end-to-end', 'reverse-entries'],
     'bounds': {'quick': 'FlowDemux 1-3 outputs; FIBDemux 2 outputs, FIB over <=2 flows with symbolic ports (incl. out of range), 4 flow ids; '
                         'switches 2 ports, 2 packets; hubs 1-4 endpoints; splitters N<=4; FatTree k=2 (all 2-flow sets, end to end) and '
-                        'k=4 (every single flow: all ordered host pairs x all shortest paths)',
-               'thorough': 'switch workloads of 3; FatTree k=6 single flows and k=4 pairs of flows up to a path budget'},
+                        'k=4 (every single flow: all ordered host pairs x all shortest paths), k=6 (first host to every destination over every path)',
+               'thorough': 'switch workloads of 3; FatTree k=8 from the first host, k=6 single flows and k=4 pairs of flows up to a path budget'},
     'assumptions': ['flow ids and port numbers are non-negative', 'the fat-tree sampler is replaced by a finite-domain stub: the '
                     'solver enumerates its outcomes (this axis is enumeration, not symbolic reasoning)'],
     'stubs': ['onl.topo.fattree.sample -> solver-chosen indices'],
